@@ -1,0 +1,32 @@
+//go:build verif
+// +build verif
+
+package redis
+
+// Contracts for the deductive verifier in /verif (govc). Comment-only file:
+// compiles to nothing with or without the tag.
+
+//@ func crc16
+//@   mode bv
+//@   prop C12
+//@   modifies nothing
+//@   ensures @xmodem crc == crcfold(b, len(b))
+//@   unfold crcfold(b, 0)
+//@   loop 0 invariant 0 <= i && i <= n && n == len(b)
+//@   loop 0 invariant @fold crc == crcfold(b, i)
+//@   loop 0 decreases n - i
+//@   loop 0 lemma crc_table_step(crc, b[i])
+//@   loop 0 unfold crcfold(b, i+1)
+
+//@ func hashtag
+//@   prop C12
+//@   modifies nothing
+//@   ensures @whole (tagopen(b) == len(b) || tagclose(b) == len(b) || tagclose(b) == tagopen(b)+1) ==> result == b
+//@   ensures @inner !(tagopen(b) == len(b) || tagclose(b) == len(b) || tagclose(b) == tagopen(b)+1) ==> sameslice(result, b[tagopen(b)+1:tagclose(b)])
+//@   loop 0 invariant 0 <= i && i <= n && n == len(b) && firstfrom(b, 123, 0, n) == firstfrom(b, 123, i, n)
+//@   loop 0 decreases n - i
+//@   loop 0 unfold firstfrom(b, 123, i, n)
+//@   loop 1 invariant 0 <= i && i < n && n == len(b) && i + 1 <= j && j <= n && i == tagopen(b)
+//@   loop 1 invariant firstfrom(b, 125, i+1, n) == firstfrom(b, 125, j, n)
+//@   loop 1 decreases n - j
+//@   loop 1 unfold firstfrom(b, 125, j, n)
